@@ -624,7 +624,7 @@ func (g *gen) refreshRef() string {
 
 // ---- classification of a failing op (stable class names for known_findings) ----
 
-func classify(op string, verdict string, feats map[string]bool) string {
+func classify(op string, verdict string, feats map[string]bool, raw, impls []string, at int) string {
 	f := strings.Split(op, ":")
 	v := strings.ToLower(verdict)
 	base := f[0]
@@ -643,9 +643,19 @@ func classify(op string, verdict string, feats map[string]bool) string {
 			base = "http-stream"
 		}
 	case "rt":
+		// an earlier request of the same plain session was answered 401 although it carried credentials
+		afterFailure := false
+		for j := 0; j < at && j < len(raw); j++ {
+			g := strings.Split(raw[j], ":")
+			if g[0] == "rt" && g[1] == f[1] && g[4] != "-" && strings.HasPrefix(impls[j], "401") {
+				afterFailure = true
+			}
+		}
 		switch {
 		case strings.HasPrefix(f[1], "w"):
 			base = "ws-rtsp-permission"
+		case afterFailure && v == "incomplete":
+			base = "rtsp-digest-after-failure"
 		case feats["user-updated"] || feats["user-deleted"]:
 			base = "rights-after-update"
 		default:
@@ -838,7 +848,7 @@ func run(c *Ctx) {
 				}
 			}
 			if verdict != "ok" {
-				c.Find(Finding{Kind: "oracle", Class: classify(op, verdict, k.feats), Case: k.line, Impl: impl, Model: model, Spec: verdict,
+				c.Find(Finding{Kind: "oracle", Class: classify(op, verdict, k.feats, k.raw, k.impls, j), Case: k.line, Impl: impl, Model: model, Spec: verdict,
 					Detail: fmt.Sprintf("op #%d %s (%s)", j, op, describe(op))})
 			}
 		}
